@@ -225,7 +225,7 @@ func init() {
 		},
 		Gen: func(c runCfg, o *Out, emit func(...string)) {
 			r := NewRng(c.seed)
-			tok := []string{"no-cache", "no-store", "private", "public", "must-revalidate", "max-age=60", "max-age=0", "max-age=1", "max-age=-5", "max-age=+7", "max-age=abc", "max-age=", "max-age=9223372036", "max-age=9223372037", "max-age=9223372036854775807", "max-age=9223372036854775808", "max-age=3600", "s-maxage=10", "max-age=\"60\"", "max-age =60", "no-cache=\"set-cookie\"", "", "immutable", "max-age=2"}
+			tok := []string{"no-cache", "no-store", "private", "public", "must-revalidate", "max-age=60", "max-age=0", "max-age=1", "max-age=-5", "max-age=+7", "max-age=abc", "max-age=", "max-age=9223372036", "max-age=9223372037", "max-age=9223372036854775807", "max-age=9223372036854775808", "max-age=3600", "s-maxage=10", "max-age=\"60\"", "max-age=\"", "max-age=\"\"", "max-age=\"60", "max-age=60\"", "max-age='", "max-age==", "max-age=\" ", "MAX-AGE=\"", "max-age =60", "no-cache=\"set-cookie\"", "", "immutable", "max-age=2"}
 			flip := func(s string) string {
 				b := []byte(s)
 				for i := range b {
